@@ -31,14 +31,16 @@ Reduced(o) ==
   CASE o \in Flags -> {<<None, None>>, <<"on", None>>, <<None, "true">>, <<"on", "false">>}
     [] o = "i"  -> {<<None, None>>, <<"in1", None>>, <<None, "in1">>, <<"in2", "in1">>, <<"in1", "EMPTY">>}
     [] o = "o"  -> {<<None, None>>, <<"out1", None>>, <<None, "out1">>, <<"out2", "out1">>, <<"EMPTY", "out1">>}
-    [] o = "s"  -> {<<None, None>>, <<"s1", None>>, <<None, "s1">>, <<"s2", "s1">>}
+    [] o = "s"  -> {<<None, None>>, <<"s1", None>>, <<None, "s1">>, <<"s2", "s1">>,
+                    <<"EMPTY", None>>, <<None, "EMPTY">>, <<"EMPTY", "s1">>}
     [] o = "d"  -> {<<None, None>>, <<"map1", None>>, <<None, "map1">>, <<"map2", "map1">>}
     [] o = "w"  -> {<<None, None>>, <<"w1", None>>, <<None, "w1">>, <<"w2", "w1">>}
     [] o = "n"  -> {<<None, None>>, <<"n1", None>>, <<None, "n1">>, <<"n2", "n1">>}
     [] o = "r"  -> {<<None, None>>, <<"r1", None>>, <<None, "r1">>, <<"r2", "r1">>}
     [] o = "pp" -> {<<None, None>>, <<"pp1", None>>, <<None, "ppdef">>, <<"pp2", "pp1">>}
     [] o = "pa" -> {<<None, None>>, <<"pa1", None>>, <<None, "parfc">>, <<"pamix", "pa1">>, <<"pa1", "pamix">>}
-    [] o = "hb" -> {<<None, None>>, <<"h0", None>>, <<None, "h17">>, <<"h8", "h33">>, <<"h33", "h8">>, <<"h32", "h0">>}
+    [] o = "hb" -> {<<None, None>>, <<"h0", None>>, <<None, "h0">>, <<"h0", "h17">>, <<None, "h17">>,
+                    <<"h8", "h33">>, <<"h33", "h8">>, <<"h32", "h0">>}
 
 NoPl == [o \in Opts |-> <<None, None>>]
 BaseCli  == [NoPl EXCEPT !["a"] = <<"on", None>>, !["p"] = <<"on", None>>, !["s"] = <<"s1", None>>,
@@ -68,6 +70,7 @@ PairSet  == IF Tier = "quick" THEN PairsOn(BaseCli, Reduced)
 \* validation table: effective values, then a uniform placement
 TFlag == {None, "on"}
 THb   == IF Tier = "quick" THEN {None, "m1", "h0", "h32", "h33"} ELSE {None} \cup Dom["hb"]
+TSalt == IF Tier = "quick" THEN {None, "s1"} ELSE {None, "s1", "EMPTY"}
 TIn   == IF Tier = "quick" THEN {None, "in1"} ELSE {None, "in1", "EMPTY"}
 TOut  == IF Tier = "quick" THEN {None, "out1"} ELSE {None, "out1", "EMPTY"}
 Uniform == IF Tier = "quick" THEN {"cli", "cfg"} ELSE {"cli", "cfg", "flags-cli", "flags-cfg"}
@@ -77,7 +80,7 @@ PlaceEff(o, e, u) ==
        IN IF onCli THEN <<e, None>> ELSE <<None, IF o \in Flags THEN "true" ELSE e>>
 TableSet ==
   { [x \in Opts |-> IF x \in DOMAIN t THEN PlaceEff(x, t[x], u) ELSE <<None, None>>] :
-      t \in [a : TFlag, u : TFlag, p : TFlag, s : {None, "s1"}, d : {None, "map1"}, hb : THb,
+      t \in [a : TFlag, u : TFlag, p : TFlag, s : TSalt, d : {None, "map1"}, hb : THb,
              w : {None, "w1"}, n : {None, "n1"}, i : TIn, o : TOut],
       u \in Uniform }
 
